@@ -16,6 +16,8 @@ type corrCase struct {
 	goRes string // canonical outcome of the implementation
 	tags  []string
 	nontr bool
+	// the operation exists only in the model GENERATED from the source (tools/go2lean): not sent to the hand-written driver
+	genOnly bool
 }
 
 func (c *Ctx) runDriver(lines []string) ([]string, error) {
@@ -70,6 +72,9 @@ func (c *Ctx) correspond(s *SuiteStat, cases []corrCase) {
 	lines := make([]string, len(cases))
 	for i, cs := range cases {
 		lines[i] = cs.line
+		if cs.genOnly {
+			lines[i] = "noop"
+		}
 	}
 	res, err := c.runDriver(lines)
 	if err != nil {
@@ -78,6 +83,9 @@ func (c *Ctx) correspond(s *SuiteStat, cases []corrCase) {
 	}
 	for i, cs := range cases {
 		s.add(cs.line, cs.nontr, cs.tags...)
+		if cs.genOnly {
+			continue
+		}
 		if res[i] != cs.goRes {
 			s.Dist["disagree"]++
 			c.violate(Violation{Suite: s.Name, Kind: "correspondence", Index: i, Class: "model-vs-impl",
@@ -92,7 +100,7 @@ func (c *Ctx) correspond(s *SuiteStat, cases []corrCase) {
 func genEligible(line string) bool {
 	for _, p := range []string{"dec msg ", "dec hdr ", "dec pl-", "dec chain-", "enc msg ", "reenc msg ",
 		"dec eap ", "dec eapm-", "enc eap ", "reenc eap ", "akaset ", "akamac ", "akamac-built ", "akaprf ", "prfplus ", "dectr ", "dhpub ", "dhshared ", "cbc-encrypt ", "cbc-decrypt ",
-		"protect ", "unprotect ", "ikekeys ", "ikekeys2 ", "childkeys ", "childkeys2 ", "saops "} {
+		"genrandom ", "protect ", "unprotect ", "ikekeys ", "ikekeys2 ", "childkeys ", "childkeys2 ", "saops "} {
 		if strings.HasPrefix(line, p) {
 			return true
 		}
